@@ -496,6 +496,15 @@ NonEmpty(d) == ~( d.t = "null" \/ (d.t = "bool" /\ ~d.b) \/ (d.t = "num" /\ d.h 
                 \/ (d.t = "str" /\ d.s = <<>>) \/ (d.t = "arr" /\ d.a = <<>>) \/ (d.t = "obj" /\ d.o = <<>>) )
 
 \* does the generated struct carry an AdditionalProperties field (explicit keyword that is not `false`)?
+\* as-is: does the struct of s get an unmarshaler of its own?  (a required property, a default, or any constraint the
+\* generator turns into a validator on a direct property; used by the deviation UntypedAddlNotCollected only)
+ValidatorKeys == {"default", "minLength", "maxLength", "pattern", "minimum", "maximum", "exclusiveMinimum", "exclusiveMaximum",
+                  "multipleOf", "minItems", "maxItems"}
+GetsUnmarshaler(s) ==
+  \E i \in DOMAIN Props(s) :
+     \/ Props(s)[i].k \in Required(s)
+     \/ \E k \in ValidatorKeys : Has(Props(s)[i].s, k)
+     \/ (Has(Props(s)[i].s, "type") /\ Props(s)[i].s.type = <<"null">>)
 CollectsAddl(s) == Has(s, "additionalProperties") /\ ~(s.additionalProperties.k = "b" /\ ~s.additionalProperties.b)
 IsStruct(s) == Main(s) = "object" /\ Props(s) # <<>>
 
@@ -548,10 +557,11 @@ Decoded(env, s, d, v, D) ==
              \* raw map, so an undeclared key that equals the Go NAME of a declared field is lost
              \* deviation "AddlEmptyKeyDropped": the AdditionalProperties field itself has no json tag, so
              \* `delete(raw, "")` removes the key ""
-             \* deviation "UntypedAddlNotCollected": for additionalProperties true / {} (no type) no code fills
-             \* the field at all (and no unmarshaler is generated unless other validators exist)
+             \* deviation "UntypedAddlNotCollected": for additionalProperties true / {} (no type) nothing fills the
+             \* field unless the struct gets an unmarshaler for another reason (since fix 43222c6 that unmarshaler compiles
+             \* and collects the keys like the typed one)
              LET untyped == s.additionalProperties.k = "b" \/ Types(s.additionalProperties.s) = <<>>
-                 extra == IF "UntypedAddlNotCollected" \in D /\ untyped THEN {}
+                 extra == IF "UntypedAddlNotCollected" \in D /\ untyped /\ ~GetsUnmarshaler(s) THEN {}
                           ELSE ((ObjKeys(d) \ PropNames(s)) \
                                 (IF "AddlKeyEqualsFieldNameDropped" \in D THEN {GoFieldName(k) : k \in PropNames(s)} ELSE {}))
                                \ (IF "AddlEmptyKeyDropped" \in D THEN {""} ELSE {}) IN
